@@ -144,7 +144,11 @@ Inductive sop :=
 | SInit
 | SUpdate
 | SSetGroup (g : nat) (p : Z)
-| STeardown.
+| STeardown
+(* the user drives a system's lifecycle directly: ASystem::pause / resume / stop (system.cpp:54-84), guards as in `transition` *)
+| SPause (n : nat)
+| SResume (n : nat)
+| SStop (n : nat).
 
 Definition start_if_configured (s : smst) (n : nat) : res smst :=
   match sys_state s n with
@@ -187,6 +191,9 @@ Definition sm_step (s : smst) (o : sop) : res smst :=
         end) (ordered s) s
   | SSetGroup g p => Ok (with_gprio s ((g, p) :: filter (fun x => negb (Nat.eqb (fst x) g)) (gprio s)))
   | STeardown => fold_res do_destroy (ordered s) s
+  | SPause n => transition s n Active CbPause (Some Paused)
+  | SResume n => transition s n Paused CbResume (Some Active)
+  | SStop n => transition s n Paused CbStop (Some Stopped)
   end.
 
 (* ---- the decidable order checker (used on the implementation's output when priorities tie) ---- *)
